@@ -312,17 +312,13 @@ Lemma logout_counted_discs c m w :
   discs (re (logout_counted c m w)) = []
   \/ (discs (re (logout_counted c m w)) = [tt] /\ ~ dead w /\ rv (logout_counted c m w) = inl tt).
 Proof.
-  unfold logout_counted. rewrite bind_unfold. destruct (get_int T34 m) as [n|x]; cbn [lift ret raise rv rw re app]; [|left; reflexivity].
-  rewrite bind_unfold. cbn [getw rv rw re app]. rewrite bind_unfold.
-  set (X := (if n =? nin w then set_next_num_in m;;; persist_in m else ret tt) w).
-  assert (HX : discs (re X) = [] /\ st (rw X) = st w).
-  { subst X. destruct (n =? nin w); [|split; reflexivity]. split.
-    - apply discs_nil.
-      assert (H : allev not_disc (set_next_num_in m;;; persist_in m)); [|apply H].
-      allev_step; [apply set_next_num_in_allev|apply persist_in_allev].
-    - assert (H : pres st (set_next_num_in m;;; persist_in m)); [|apply H].
-      pres_step; [apply set_next_num_in_pres; ins_solve|apply persist_in_pres; ins_solve]. }
-  destruct HX as [HX1 HX2]. destruct (rv X); cbn [rv rw re]; [|left; exact HX1].
+  rewrite logout_counted_unfold. destruct (get_int T34 m) as [n|x]; cbn [rv rw re]; [|left; reflexivity].
+  set (X := logout_count m n w).
+  assert (HX1 : discs (re X) = []).
+  { subst X. unfold logout_count. destruct (n =? nin w); [|reflexivity]. apply discs_nil.
+    assert (H : allev not_disc (try_ (set_next_num_in m;;; persist_in m);;; ret tt)); [|apply H].
+    allev_step; [|allev_tac]. apply allev_try. allev_step; [apply set_next_num_in_allev|apply persist_in_allev]. }
+  assert (HX2 : st (rw X) = st w) by (subst X; apply logout_count_pres; ins_solve).
   rewrite discs_app, HX1. cbn [app].
   unfold process_logout. rewrite bind_unfold. cbn [getw rv rw re app]. rewrite bind_unfold. cbn [emit rv rw re app discs].
   set (ds := if wasact (rw X) then ST_DISC_WCONN else ST_DISC_BROKEN).
@@ -990,3 +986,19 @@ Proof.
   split; [right; left; reflexivity|]. split; [apply c11_classes_forallb; vm_compute; reflexivity|].
   split; [vm_compute; reflexivity|]. split; [vm_compute; reflexivity|]. unfold okstate, okst. cbn. tauto.
 Qed.
+
+(* regression (amended R3b): the peer's Logout is processed even when its journaling raises -
+   (a) its number is already in the inbound journal (after SequenceReset(34=2,36=2));
+   (b) its MsgSeqNum text parses as str but not as bytes ("2" + NEL) *)
+Definition logouts_seen (l : list event) : nat := length (filter (fun e => match e with OnLogout => true | _ => false end) l).
+Definition i_logout_text (v : str) := OIn (mkMsg (S "5")
+    [(T8, S "FIX.4.4"); (T9, S "100"); (T35, S "5"); (T49, S "SRV"); (T56, S "CLI");
+     (T34, v); (T52, S "20230101-10:00:00.000"); (T10, S "000")]) 0.
+Lemma logout_always_processed :
+  (let h := [i_logon 1; i_reset 2 2; i_logout 2] in
+   dead (final cfg0 w_acceptor h) /\ logouts_seen (trace (run cfg0 w_acceptor h)) = 1%nat
+   /\ length (discs (trace (run cfg0 w_acceptor h))) = 1%nat)
+  /\ (let h := [i_logon 1; i_logout_text [50%N; 133%N]] in
+      dead (final cfg0 w_acceptor h) /\ logouts_seen (trace (run cfg0 w_acceptor h)) = 1%nat
+      /\ length (discs (trace (run cfg0 w_acceptor h))) = 1%nat).
+Proof. cbn zeta. unfold dead. repeat split; vm_compute; congruence. Qed.
